@@ -22,6 +22,7 @@ type BuildOpts struct {
 	ExtFiles   bool // add external-writer files
 	BigNums    bool // boundary-magnitude values under the indexed keys
 	BigRegion  bool // external files get multi-MiB filter sections (multi-chunk region reads)
+	ManyFiles  bool // more, smaller ingest steps (several files per engine: multi-group merges)
 }
 
 // Descriptor is the replayable description of a built scenario.
@@ -87,15 +88,22 @@ func BuildWith(r *core.Rand, caseID string, o BuildOpts, pre func(*World)) (*Wor
 	}
 	budget := r.Range(5, maxRows)
 	steps := r.Range(2, 7)
+	if o.ManyFiles {
+		budget = r.Range(maxRows/2, maxRows)
+		steps = r.Range(6, 14)
+	}
 	rr := r.Split("rows")
 	for s := 0; s < steps && budget > 0; s++ {
 		ei := r.Intn(len(w.Eng))
 		nb := r.Range(1, 3)
+		if o.ManyFiles {
+			nb = 1
+		}
 		var batches [][]*RowRec
 		total := 0
 		for b := 0; b < nb && budget > 0; b++ {
 			n := r.Range(1, 12)
-			if r.Chance(0.15) {
+			if r.Chance(0.15) && !o.ManyFiles {
 				n = r.Range(12, 40)
 			}
 			if n > budget {
